@@ -7,3 +7,9 @@ func verifEvent(name string, table string, args ...interface{}) {}
 
 // verifCountProcessed is a verification hook. Without the "verif" build tag it is a no-op.
 func verifCountProcessed(t *table) {}
+
+// verifCountSent is a verification hook. Without the "verif" build tag it is a no-op.
+func verifCountSent(t *table) {}
+
+// verifCountApplied is a verification hook. Without the "verif" build tag it is a no-op.
+func verifCountApplied(t *table) {}
